@@ -46,4 +46,96 @@ theorem loop_inv (acc : Int → Bool) (sh : Shard) (maxRepo : Nat) (ds pre : Lis
       (step_inv acc sh maxRepo st pre.length d hd h)
     simpa using this
 
+
+/-! ### RepoURLs / LineFragments -/
+
+theorem mapWrites_mem (acc : Int → Bool) (sh : Shard) (f : Repo → String) (g : SubRepo → String) (p : String × String)
+    (hp : p ∈ mapWrites acc sh f g) : ∃ r ∈ sh.repos, acc r.tenant = true ∧ p ∈ repoPairs f g r := by
+  unfold mapWrites at hp
+  rw [List.mem_flatMap] at hp
+  obtain ⟨r, hr, hp⟩ := hp
+  rw [List.mem_filter] at hr
+  exact ⟨r, hr.1, hr.2, hp⟩
+
+theorem mapLookup_mem (ws : List (String × String)) (k v : String) (h : mapLookup ws k = some v) : (k, v) ∈ ws := by
+  unfold mapLookup at h
+  cases hfind : ws.reverse.find? (fun p => p.1 == k) with
+  | none => simp [hfind] at h
+  | some p =>
+    simp only [hfind, Option.map_some, Option.some.injEq] at h
+    have hmem := List.mem_of_find?_eq_some hfind
+    have hk := List.find?_some hfind
+    simp only [beq_iff_eq] at hk
+    rw [List.mem_reverse] at hmem
+    have : p = (k, v) := by cases p; simp_all
+    exact this ▸ hmem
+
+theorem finalMap_mem (ws : List (String × String)) (p : String × String) (h : p ∈ finalMap ws) : p ∈ ws := by
+  unfold finalMap at h
+  rw [List.mem_mergeSort] at h
+  rw [List.mem_filterMap] at h
+  obtain ⟨k, _, hk⟩ := h
+  cases hl : mapLookup ws k with
+  | none => simp [hl] at hk
+  | some v =>
+    simp only [hl, Option.map_some, Option.some.injEq] at hk
+    exact hk ▸ mapLookup_mem ws k v hl
+
+/-! ### List -/
+
+/-- invariant of `for i := range d.repoListEntry`: every listed index is a live repository the predicate admits -/
+def ListInv (acc : Int → Bool) (sh : Shard) (out : ListOut) : Prop :=
+  (∀ i ∈ out.repos, ∃ r, sh.repos[i]? = some r ∧ acc r.tenant = true ∧ r.tomb = false) ∧
+  (∀ w ∈ out.mapWrites, ∃ r, sh.repos[w.2]? = some r ∧ acc r.tenant = true ∧ r.tomb = false ∧ r.id = w.1)
+
+theorem listStep_inv (acc : Int → Bool) (sh : Shard) (incl : Repo → Bool) (field : Field) (out : ListOut) (i : Nat) (r : Repo)
+    (hr : sh.repos[i]? = some r) (h : ListInv acc sh out) : ListInv acc sh (listStep acc sh incl field out i r) := by
+  unfold listStep
+  by_cases htomb : r.tomb = true
+  · simpa [htomb] using h
+  · by_cases hacc : acc r.tenant = true
+    · by_cases hin : incl r = true
+      · have htomb' : r.tomb = false := by simpa using htomb
+        simp only [htomb', hacc, hin]
+        obtain ⟨h1, h2⟩ := h
+        by_cases hid : r.id = 0
+        · simp only [hid]
+          refine ⟨?_, by simpa using h2⟩
+          intro j hj
+          simp at hj
+          rcases hj with hj | rfl
+          · exact h1 j hj
+          · exact ⟨r, hr, hacc, htomb'⟩
+        · cases field with
+          | repos =>
+            simp only [hid]
+            refine ⟨?_, by simpa using h2⟩
+            intro j hj
+            simp at hj
+            rcases hj with hj | rfl
+            · exact h1 j hj
+            · exact ⟨r, hr, hacc, htomb'⟩
+          | reposMap =>
+            simp only [hid]
+            refine ⟨by simpa using h1, ?_⟩
+            intro w hw
+            simp at hw
+            rcases hw with hw | rfl
+            · exact h2 w hw
+            · exact ⟨r, hr, hacc, htomb', rfl⟩
+      · simpa [htomb, hacc, hin] using h
+    · simpa [htomb, hacc] using h
+
+theorem listFrom_inv (acc : Int → Bool) (sh : Shard) (incl : Repo → Bool) (field : Field) (rs pre : List Repo) (out : ListOut)
+    (hsplit : sh.repos = pre ++ rs) (h : ListInv acc sh out) :
+    ListInv acc sh (listFrom acc sh incl field out pre.length rs) := by
+  induction rs generalizing pre out with
+  | nil => exact h
+  | cons r rs ih =>
+    simp only [listFrom]
+    have hr : sh.repos[pre.length]? = some r := by simp [hsplit]
+    have := ih (pre ++ [r]) (listStep acc sh incl field out pre.length r) (by simp [hsplit])
+      (listStep_inv acc sh incl field out pre.length r hr h)
+    simpa using this
+
 end ZoektModel.C23
